@@ -11,7 +11,8 @@
 From Coq Require Import List Bool Arith.
 Import ListNotations.
 Require Import PV.Eval.TypeEval.
-Require Import PV.Proofs.TypeEvalBasic PV.Proofs.TypeEvalSingle PV.Proofs.TypeEvalUnion PV.Proofs.TypeEvalDistrib.
+Require Import PV.Proofs.TypeEvalBasic PV.Proofs.TypeEvalSingle PV.Proofs.TypeEvalUnion PV.Proofs.TypeEvalDistrib PV.Proofs.TypeEvalPins.
+Require Import PV.Gen.TypeEvalGen.
 
 (* is_provided / is_positional / is_keyword select by the documented argument
    kind: int and star-args positions are POSITIONAL (0), str and star-star-kwargs
@@ -133,3 +134,13 @@ Example C20_tail_guard_inhabited :
   (forall T m ex, acc_eq T m ex = false -> narrow_eq T m = []).
 Proof. exact tail_guard_inhabited. Qed.
 Print Assumptions C20_tail_guard_inhabited.
+
+(* Tie to the source, re-checked on every run.  [gen_kind_match] is regenerated
+   from ConditionEvaluator.visit_Call by harness/translate/typeeval.py and is the
+   model's kind_match; the other regions the model mirrors (visit_BoolOp,
+   visit_is_of_type, decompose_union, unite_varmaps, visit_block, visit_If, the
+   evaluator hand-off in signature.py, ...) are pinned in Proofs/TypeEvalPins.v,
+   which this file depends on, so an edit of any of them breaks the build. *)
+Theorem C20_kind_predicates_are_translated : forall f p, gen_kind_match f p = kind_match f p.
+Proof. exact gen_kind_match_is_model. Qed.
+Print Assumptions C20_kind_predicates_are_translated.
